@@ -2,9 +2,12 @@
 //   beffh <mode> gen <seed> <count> [params…]   -> request lines on stdout
 //   beffh <mode> run                           -> reads request lines, prints "<reply>\t<oracle>" per line
 mod bddmode;
+mod compilemode;
 mod sx;
 use std::io::{BufRead, Write};
 use sx::*;
+
+thread_local! { static LAST_PANIC: std::cell::RefCell<String> = std::cell::RefCell::new(String::new()); }
 
 fn main() {
     let args: Vec<String> = std::env::args().collect();
@@ -34,7 +37,10 @@ fn main() {
             }
         }
         "run" => {
-            std::panic::set_hook(Box::new(|_| {}));
+            std::panic::set_hook(Box::new(|info| {
+                let loc = info.location().map(|l| format!("{}:{}", l.file(), l.line())).unwrap_or_default();
+                LAST_PANIC.with(|p| *p.borrow_mut() = loc);
+            }));
             let stdin = std::io::stdin();
             for line in stdin.lock().lines() {
                 let line = line.unwrap();
@@ -44,13 +50,15 @@ fn main() {
                 let req = parse(&line).expect("parse request");
                 let res = std::panic::catch_unwind(|| match mode {
                     "bdd" => bddmode::run(&req),
+                    "compile" => compilemode::run(&req),
                     _ => panic!("unknown mode"),
                 });
                 match res {
                     Ok((reply, oracle)) => writeln!(out, "{}\t{}", reply, oracle).unwrap(),
                     Err(e) => {
                         let msg = e.downcast_ref::<String>().cloned().or_else(|| e.downcast_ref::<&str>().map(|s| s.to_string())).unwrap_or_default();
-                        writeln!(out, "(panic {})\t(oracle fail panic)", quote(&msg)).unwrap()
+                        let loc = LAST_PANIC.with(|p| p.borrow().clone());
+                        writeln!(out, "(panic {} {})\t(oracle fail c04.panic)", quote(&loc), quote(&msg.chars().take(160).collect::<String>())).unwrap()
                     }
                 }
             }
